@@ -33,7 +33,8 @@ func (Engine) Info(prop string) core.Info {
 			"%-escapes, up to 60 KB quick / 200 KB thorough) that must not panic ParseURL and, when they parse, must dispatch to the dialer of their scheme. " +
 			"Unambiguous-component narrowing: schemes lower-case; targets and digis non-empty ASCII letters/digits/'-' (upper-casing = ASCII); hosts are reg-names of letters/digits/'.'/'-' " +
 			"or an IPv6 literal, compared case-insensitively; host= parameters non-empty; user names non-empty; an absent user may come back as nil or empty; whether the host key stays in Params is not checked. " +
-			"Non-trivial: (conc) >= 2 clients and >= 1 dial reached a registered dialer; (url) >= 1 tuple parsed into its components and reached its dialer. Distinct: distinct event-log hash (merged history / per-URL results).",
+			"Non-trivial: (conc) >= 2 clients and >= 1 dial reached a registered dialer; (url) >= 1 tuple parsed into its components and reached its dialer. Distinct: distinct event-log hash (merged history / per-URL results). " +
+			"40 % of the parsed URLs are changed by the caller after they were judged (later parses must not see it); raw strings include short targets spelled with letters whose upper-casing changes their byte length; no accepted URL may carry a target shorter than three bytes. ",
 		Real:         []string{"transport (RegisterDialer, RegisterContextDialer, UnregisterDialer, DialURL, DialURLContext, ParseURL, URL)"},
 		Stub:         []string{"clock (testing/synctest)", "registered dialers (recording stubs)", "client goroutines"},
 		Assumptions:  []string{"library runs on the Go 1.26.8 standard library (net/url of 1.26.8), not 1.24.0", "workers run at GOMAXPROCS=1: calls at identical simulated instants are serialised by the runtime in timer order; the race detector's happens-before analysis does not depend on real overlap", "transport/telnet, ardop and ax25 are not linked into this binary, so no scheme is registered by package init"},
